@@ -3,7 +3,7 @@ import os
 import shutil
 import tempfile
 
-from lib import common as C, core, gen
+from lib import common as C, core, gen, gen_forms
 from lib.sexp import parse_sexp
 
 PROP = "C04"
@@ -311,6 +311,13 @@ def run(res):
         srcs.append(g.program())
         for k, v in g.stats.items():
             stats[k] = stats.get(k, 0) + v
+    # every expression form of the grammar (every template shape among them) in every operand position: own random stream
+    frng = C.Rng(res.seed ^ 0x666f726d73)
+    forms = gen_forms.Forms(frng)
+    nform = 1500 if tier == "quick" else 40000
+    form_srcs = [forms.program() for _ in range(nform)]
+    srcs += form_srcs
+    stats["expression-form programs"] = nform
     corpus = []
     for f in ("harvest.hex", "semgen.hex", "edge.hex"):
         for line in open(os.path.join(C.VERIF, "corpus", "core", f)):
@@ -371,6 +378,8 @@ def run(res):
             with open(os.path.join(moddir, name + ".risor"), "w") as mf:
                 mf.write(text)
         eloops = error_loops(rng, nloop)
+        # loop bodies made of expression forms in operand positions (same judgement: 3 vs 3000 iterations, final stack pointer)
+        eloops += [forms.loop_program() for _ in range(nloop // 2)]
 
         def outcome_run(sources):
             shards = [sources[k::nsh] for k in range(nsh)]
